@@ -4,7 +4,7 @@ import subprocess
 
 from . import common as C
 
-RUNNERS = ["fmtsim"]
+RUNNERS = ["fmtsim", "parsesim"]
 
 
 def build_envshim():
@@ -23,6 +23,8 @@ def build_envshim():
 
 
 def run():
+    os.environ["SIM_REPO"] = C.REPO
+    os.environ["SIM_VERIF"] = C.VERIF
     build_envshim()
     for r in RUNNERS:
         C.require_build(r)
